@@ -1214,6 +1214,11 @@ def run_conc_property(ctx):
         stage_race(ctx, 30 if quick else 600, 10)
     else:
         stage_burst(ctx, 5000 if quick else 50000)
+        # a sequential client: every call returns (a call that does not is a Timeout event written by
+        # the harness's watchdog); histories with expiry, both housekeeping regimes, un-synced bursts
+        k = 1 if quick else 10
+        stage_v(ctx, [("sync-small", 60 * k, 40), ("sync-far", 60 * k, 16), ("sync-exp", 60 * k, 30),
+                      ("sync-burst", 100 * k, 3), ("sync-flush", 14, 0)])
 
 
 def stage_conc_light(ctx):
